@@ -8,5 +8,5 @@ for f in sorted(glob.glob("/verif/seeded/*/meta.json")):
     c = m["confirmed_by_me"]; r = m["check_run"]
     sigs = "; ".join("`%s`" % s.replace("|", "\\|") for s in r["violation_signatures"][:3])
     print("| %s | %s | %s | %s | %s | %s | %s |" % (m["name"], m["property"], m["needs_to_manifest"][:140],
-          "yes" if "SEED-DEMO-CONFIRMED" in c["demo"] else "NO", "yes" if "0 not passed" in c["baseline_on_patched_tree"] else "?",
+          "yes" if ("SEED-DEMO-CONFIRMED" in c["demo"] or "confirmed" in c["demo"]) else "NO", "yes" if "0 not passed" in c["baseline_on_patched_tree"] else ("yes (1 starved test passes alone)" if "passes when re-run alone" in c["baseline_on_patched_tree"] else "?"),
           ("yes" if r["detected"] else "**no**") + (" (%s)" % m.get("note","") if m.get("note") else ""), sigs))
